@@ -184,7 +184,7 @@ def get_proxy_info(
     if value:
         proxy = urlparse(value)
         auth = (
-            (unquote(proxy.username), unquote(proxy.password))
+            (unquote(proxy.username), unquote(proxy.password or ""))
             if proxy.username
             else None
         )
